@@ -118,6 +118,12 @@ func (a *ar) expr(e ast.Expr, en env) (string, kind) {
 				return "(!" + s + ")", kB
 			}
 		}
+		if v.Op == token.SUB {
+			s, k := a.expr(v.X, en)
+			if k == kI || k == kLit {
+				return "(-" + a.toI(s, k) + ")", kI
+			}
+		}
 	case *ast.CallExpr:
 		fn := srcOf(v.Fun)
 		switch {
@@ -136,6 +142,24 @@ func (a *ar) expr(e ast.Expr, en env) (string, kind) {
 			if k == kZ {
 				return s, kI
 			}
+		case fn == "int64" && len(v.Args) == 1:
+			s, k := a.expr(v.Args[0], en)
+			if k == kI || k == kLit {
+				return a.toI(s, k), kI
+			}
+		case strings.HasSuffix(fn, ".calculateNodesToAdd") && len(v.Args) == 3:
+			xs := []string{}
+			ok := true
+			for _, x := range v.Args {
+				s, k := a.expr(x, en)
+				if k != kI && k != kLit {
+					ok = false
+				}
+				xs = append(xs, a.toI(s, k))
+			}
+			if ok {
+				return "(Gen.calculateNodesToAdd " + strings.Join(xs, " ") + ")", kI
+			}
 		case fn == "math.Ceil" && len(v.Args) == 1:
 			s, k := a.expr(v.Args[0], en)
 			if k == kQ {
@@ -146,6 +170,9 @@ func (a *ar) expr(e ast.Expr, en env) (string, kind) {
 			r, kr := a.expr(v.Args[1], en)
 			if kl == kZ && kr == kZ {
 				return "(max " + l + " " + r + ")", kZ
+			}
+			if kl == kF && kr == kF {
+				return "(Gen.F.max " + l + " " + r + ")", kF
 			}
 		case fn == "allEqual" && len(v.Args) >= 2:
 			m, km := a.expr(v.Args[0], en)
@@ -164,7 +191,10 @@ func (a *ar) expr(e ast.Expr, en env) (string, kind) {
 		}
 	case *ast.BinaryExpr:
 		l, kl := a.expr(v.X, en)
-		r, kr := a.expr(v.Y, en)
+		r, kr := "", kBad
+		if id, ok := v.Y.(*ast.Ident); !ok || id.Name != "nil" {
+			r, kr = a.expr(v.Y, en)
+		}
 		isFloat := func(k kind) bool { return k == kQ || k == kF }
 		isInt := func(k kind) bool { return k == kI || k == kLit || k == kZ }
 		switch v.Op {
@@ -181,6 +211,13 @@ func (a *ar) expr(e ast.Expr, en env) (string, kind) {
 			if v.Op == token.NEQ {
 				neg = "!"
 			}
+			// err != nil / err == nil, err a Boolean "an error was returned"
+			if id, ok := v.Y.(*ast.Ident); ok && id.Name == "nil" && kl == kB {
+				if v.Op == token.NEQ {
+					return l, kB
+				}
+				return "(!" + l + ")", kB
+			}
 			if kl == kF && kr == kF {
 				return "(" + neg + "decide (" + l + " = " + r + "))", kB
 			}
@@ -189,6 +226,10 @@ func (a *ar) expr(e ast.Expr, en env) (string, kind) {
 			}
 		case token.LSS, token.GTR, token.LEQ, token.GEQ:
 			op := map[token.Token]string{token.LSS: "<", token.GTR: ">", token.LEQ: "≤", token.GEQ: "≥"}[v.Op]
+			if kl == kF && kr == kQ && (v.Op == token.LSS || v.Op == token.GTR) {
+				f := map[token.Token]string{token.LSS: "Gen.F.lt", token.GTR: "Gen.F.gt"}[v.Op]
+				return "(" + f + " " + l + " (" + r + "))", kB
+			}
 			if isInt(kl) && isInt(kr) && !(kl == kLit && kr == kLit) {
 				return "decide (" + a.toI(l, kl) + " " + op + " " + a.toI(r, kr) + ")", kB
 			}
@@ -196,6 +237,9 @@ func (a *ar) expr(e ast.Expr, en env) (string, kind) {
 			op := map[token.Token]string{token.ADD: "+", token.SUB: "-", token.MUL: "*", token.QUO: "/"}[v.Op]
 			if (isFloat(kl) && (isFloat(kr) || kr == kLit)) || (isFloat(kr) && kl == kLit) {
 				return "rnd (" + a.toQ(l, kl) + " " + op + " " + a.toQ(r, kr) + ")", kQ
+			}
+			if (kl == kI || kl == kLit) && (kr == kI || kr == kLit) && !(kl == kLit && kr == kLit) && v.Op != token.QUO {
+				return "(" + a.toI(l, kl) + " " + op + " " + a.toI(r, kr) + ")", kI
 			}
 		}
 	}
@@ -253,6 +297,30 @@ func (a *ar) ret(r *ast.ReturnStmt, en env) string {
 			}
 		}
 	}
+	switch a.fn {
+	case "calculateNodesToAdd", "clampPrefix":
+		if len(r.Results) == 1 {
+			s, k := a.expr(r.Results[0], en)
+			if k == kI || k == kLit {
+				return a.toI(s, k)
+			}
+		}
+	case "bandSwitch":
+		if len(r.Results) == 2 {
+			s, k := a.expr(r.Results[0], en)
+			e := "false"
+			if !isNil(r.Results[1]) {
+				es, ek := a.expr(r.Results[1], en)
+				if ek != kB {
+					es, _ = a.unk("returned error: " + srcOf(r.Results[1]))
+				}
+				e = es
+			}
+			if k == kI || k == kLit {
+				return "(" + a.toI(s, k) + ", " + e + ")"
+			}
+		}
+	}
 	u, _ := a.unk("return: " + srcOf(r.Results[0]))
 	return u
 }
@@ -273,11 +341,25 @@ func (a *ar) block(ss []ast.Stmt, en env, ind string) string {
 			return a.block(rest, en, ind)
 		}
 	case *ast.AssignStmt:
+		// nodesDelta, err = calcScaleUpDelta(untaintedNodes, cpuPercent, memPercent, …): the pair `up` handed in
+		if len(v.Lhs) == 2 && len(v.Rhs) == 1 {
+			if c, ok := v.Rhs[0].(*ast.CallExpr); ok && srcOf(c.Fun) == "calcScaleUpDelta" && len(c.Args) == 6 &&
+				srcOf(c.Args[0]) == "untaintedNodes" && srcOf(c.Args[1]) == "cpuPercent" && srcOf(c.Args[2]) == "memPercent" &&
+				strings.Contains(srcOf(c.Args[3]), "GetCPUQuantity") && strings.Contains(srcOf(c.Args[4]), "GetMemoryQuantity") && srcOf(c.Args[5]) == "nodeGroup" {
+				d, e := srcOf(v.Lhs[0]), srcOf(v.Lhs[1])
+				en2 := en.copy()
+				en2[d], en2[e] = kI, kB
+				return ind + "let " + d + " : Int := up.1\n" + ind + "let " + e + " : Bool := up.2\n" + a.block(rest, en2, ind)
+			}
+		}
 		if len(v.Lhs) == len(v.Rhs) && (v.Tok == token.DEFINE || v.Tok == token.ASSIGN) {
 			en2 := en.copy()
 			out := ""
 			// parallel assignment: evaluate every right-hand side in the old environment
-			type one struct{ name, val string; k kind }
+			type one struct {
+				name, val string
+				k         kind
+			}
 			var lets []one
 			ok := true
 			for i := range v.Lhs {
@@ -311,7 +393,57 @@ func (a *ar) block(ss []ast.Stmt, en env, ind string) string {
 				return out + a.block(rest, en2, ind)
 			}
 		}
+	case *ast.SwitchStmt:
+		if v.Tag == nil && v.Init == nil {
+			// tagless switch = if / else-if chain in source order (a default clause, wherever it stands, comes last)
+			var def []ast.Stmt
+			hasDef := false
+			type arm struct {
+				cond string
+				body []ast.Stmt
+			}
+			var arms []arm
+			okSw := true
+			for _, cc := range v.Body.List {
+				cl := cc.(*ast.CaseClause)
+				for _, st := range cl.Body {
+					if br, ok := st.(*ast.BranchStmt); ok && br.Tok == token.FALLTHROUGH {
+						okSw = false
+					}
+				}
+				if cl.List == nil {
+					def, hasDef = cl.Body, true
+					continue
+				}
+				cs := []string{}
+				for _, e := range cl.List {
+					c, k := a.expr(e, en)
+					if k != kB {
+						c, _ = a.unk("case: " + srcOf(e))
+					}
+					cs = append(cs, c)
+				}
+				arms = append(arms, arm{"(" + strings.Join(cs, " || ") + ")", cl.Body})
+			}
+			if okSw {
+				_ = hasDef
+				out := ""
+				cur := ind
+				for _, m := range arms {
+					out += cur + "if " + m.cond + " = true then\n" + a.block(append(append([]ast.Stmt{}, m.body...), rest...), en.copy(), cur+"  ") + "\n" + cur + "else\n"
+					cur += "  "
+				}
+				return out + a.block(append(append([]ast.Stmt{}, def...), rest...), en.copy(), cur)
+			}
+		}
 	case *ast.IfStmt:
+		if v.Init != nil {
+			if as, ok := v.Init.(*ast.AssignStmt); ok {
+				cp := *v
+				cp.Init = nil
+				return a.block(append([]ast.Stmt{as, &cp}, rest...), en, ind)
+			}
+		}
 		if v.Init == nil {
 			c, k := a.expr(v.Cond, en)
 			if k != kB {
@@ -380,6 +512,10 @@ func genArith(repo, out string) {
 	b.WriteString("/-- A construct of util.go the translator does not understand: opaque, so nothing can be proved from it. -/\nopaque arithUnknown : Nat → Int\n\n")
 	b.WriteString("/-- A float64 that is either an ordinary value (the rational it denotes) or the sentinel `math.MaxFloat64`. -/\ninductive F where\n  | fin (q : Rat)\n  | maxFloat\nderiving DecidableEq, Repr, Inhabited\n\n")
 	b.WriteString("def F.val : F → Rat\n  | .fin q => q\n  | .maxFloat => 0\n\n")
+	b.WriteString("/-- `math.Max`, `<` and `>` against an ordinary value, with `math.MaxFloat64` above every ordinary value. -/\n")
+	b.WriteString("def F.max : F → F → F\n  | .fin a, .fin b => .fin (Max.max a b)\n  | _, _ => .maxFloat\n")
+	b.WriteString("def F.lt : F → Rat → Bool\n  | .fin a, q => decide (a < q)\n  | .maxFloat, _ => false\n")
+	b.WriteString("def F.gt : F → Rat → Bool\n  | .fin a, q => decide (a > q)\n  | .maxFloat, _ => true\n\n")
 	b.WriteString("/-- `allEqual(matchValue, values...)`: the source was read as \"every value equals matchValue\" iff `allEqualRead`. -/\n")
 	b.WriteString("def allEqual (m : Int) (xs : List Int) : Bool := xs.all (fun x => decide (x = m))\n")
 	fmt.Fprintf(&b, "def allEqualRead : Bool := %v\n\n", allEqualOK(fns["allEqual"]))
